@@ -19,6 +19,26 @@ CLAIMS = {
         "spence(z) = Li2(1-z); eko.constants read from installed source. Kernel variable assumed in (0,1).",
         "DESIGN.md section 3, C03",
     ),
+    "C02": (
+        "normal-form comparison of folded coupling weights and LO operators with an independent PDG/CKM oracle",
+        "Decides, as identities in Q2, sin^2(theta_W), MZ, MW, polarisation, propagator correction and nine symbolic CKM elements: charge and "
+        "weak-isospin tables == PDG; get_weight for EM/NC x six quarks x VV/AA/VA/AV x e-/e+ == PDG structure-function couplings (neutrino beams "
+        "up to the helicity convention; conjugate beams related by P -> -P); propagator ratios == PDG; CC weights == 2 x the documented CKM "
+        "partition; and the partially evaluated LO operator of every kind in ZM-VFNS nf=3..6 for EM/NC/CC and four projectiles is the parton "
+        "model (row q = weight x x conv(delta), row qbar = +/- it, zero elsewhere). NOT decided: numerical CKM input, the delta quadrature (C01/C03).",
+        "Trusted: CPython ast; yadsa partial evaluator; spec/ew.py (PDG review formulas transcribed independently of the code); "
+        "docs/source/theory/fns.rst for the CKM partition; tree-level G_F MZ^2/(2 sqrt2 pi alpha) = 1/(4 s^2 c^2).",
+        "DESIGN.md section 3, C02",
+    ),
+    "C13": (
+        "normal-form identities between partially evaluated operators under substitutions (eta -> 0, P -> -P, charge conjugation, flavour exchange)",
+        "Decides, as identities between partially evaluated operators over kinds x heavyness x schemes x orders: NC with the Z propagator ratios "
+        "set to zero == EM and each ratio carries Q2/(MZ^2+Q2); positron(P) == electron(-P); antineutrino/e+ CC operators == neutrino/e- ones with "
+        "parton rows conjugated and a minus sign for parity-violating kinds (symbolic CKM); ZM-VFNS rows of active quarks with identical "
+        "electroweak charges coincide. NOT decided: numerical values.",
+        "Trusted: CPython ast; yadsa partial evaluator and summaries; algebra.subs; heavy coefficient functions folded above threshold.",
+        "DESIGN.md section 3, C13",
+    ),
     "C07": (
         "normal-form identities between partially evaluated operators (additivity over parts, heavyness, coupling restrictions)",
         "Decides additivity as polynomial identities between partially evaluated operators, for every order key (scale-variation keys "
